@@ -223,7 +223,14 @@ func (a *Application) translationHandler(trans translator.RequestTranslator) htt
 		// Read maxBodySize+1 to detect oversized requests before JSON parsing
 		bodyBytes, err := io.ReadAll(io.LimitReader(r.Body, maxBodySize+1))
 		if err != nil {
-			a.writeTranslatorError(w, trans, pr, err, http.StatusBadRequest)
+			// the server-wide max_body_size can bite first (undeclared length): same answer as
+			// for the translator's own limit below
+			status := http.StatusBadRequest
+			var tooLarge *http.MaxBytesError
+			if errors.As(err, &tooLarge) {
+				status = http.StatusRequestEntityTooLarge
+			}
+			a.writeTranslatorError(w, trans, pr, err, status)
 			a.recordTranslatorMetrics(trans, pr, constants.TranslatorModeTranslation, constants.FallbackReasonNone)
 			return
 		}
